@@ -157,9 +157,18 @@ def sc_points(cx, n, perm, kinds, cost):
         if pa is not None and pb is not None:
             cx.concrete(tag + ":probability-ndf", pa[1] == pb[1], info="%r vs %r" % (pa[1], pb[1]))
     else:
+        import numpy as np
+
         cx.eq(tag + ":cost", fb.cost_function_value, fa.cost_function_value)
         cx.eq(tag + ":goodness_of_fit", fb.goodness_of_fit, fa.goodness_of_fit)
         cx.eq(tag + ":chi2_probability", fb.chi2_probability, fa.chi2_probability)
+        Vn = np.array([[float(V[i][j]) for j in range(n)] for i in range(n)])
+        rn = np.array([float(y[i] - (a * x[i] + b)) for i in range(n)])
+        q0 = float(rn @ np.linalg.solve(Vn, rn))
+        ld = float(np.log(np.linalg.det(Vn)))
+        for nm, f in (("original", fa), ("permuted", fb)):
+            cx.eq(tag + ":goodness-of-fit-%s==r^T-V^-1-r" % nm, f.goodness_of_fit, q0)
+            cx.eq(tag + ":cost-%s==r^T-V^-1-r+ln-det" % nm, f.cost_function_value, q0 + ld)
 
 
 def sc_indexed_points(cx, perm):
@@ -287,6 +296,35 @@ def sc_par_order_band(cx, order, minimizer, fixed):
             for v, j in enumerate(free):
                 want = want + J[u] * cov[i, j] * J[v]
         cx.eq(tag + ":band[%d]^2==J-C-J^T-over-free-parameters" % k, band[k] * band[k], want)
+
+
+def sc_par_order_asym(cx, order, fixed):
+    """asymmetric uncertainties in a permuted signature with fixed parameters: each free parameter gets MINOS's result
+    for ITS name, fixed parameters get zeros"""
+    pb = B.build(cx, "xy", "iminuit", model=ORDERS[order], sources=[("SA", "y", "data")], fixed=fixed, rho=0, n=3)
+    pb.assume_pd()
+    fit = pb.fit
+    fit.do_fit(asymmetric_parameter_errors=True)
+    ae = fit.asymmetric_parameter_errors
+    tag = "par-order-asym/%s/fixed-%s" % (order, "+".join(fixed) or "none")
+    names = list(pb.par_names)
+    if cx.symbolic:
+        me = {nm: (lo, hi) for nm, lo, hi in [c for c in stubs.CALLS if c["kind"] == "minos"][-1]["merrors"]}
+        for i, nm in enumerate(names):
+            if nm in pb.fixed:
+                cx.eq(tag + ":fixed-%s-row-zero" % nm, [ae[i, 0], ae[i, 1]], [0.0, 0.0])
+            else:
+                cx.eq(tag + ":%s-row==MINOS(%s)" % (nm, nm), [ae[i, 0], ae[i, 1]], list(me[nm]))
+    else:
+        import numpy as np
+
+        err = fit.parameter_errors
+        for i, nm in enumerate(names):
+            if nm in pb.fixed:
+                cx.concrete(tag + ":fixed-%s-row-zero" % nm, float(ae[i, 0]) == 0.0 and float(ae[i, 1]) == 0.0, info="%r" % (ae[i],))
+            else:
+                # linear model + Gaussian uncertainties: MINOS == +- the symmetric uncertainty of THAT parameter
+                cx.concrete(tag + ":%s-row==MINOS(%s)" % (nm, nm), bool(np.allclose([-ae[i, 0], ae[i, 1]], [err[i], err[i]], rtol=2e-2)), info="%r vs %r" % (ae[i], err[i]))
 
 
 def sc_scale(cx, kinds, cost, constraint):
@@ -440,6 +478,11 @@ def scenarios(tier, seed):
                 if q and minimizer == "iminuit" and fixed in ((), ("b",)):
                     continue
                 S.append(Scenario("par-order-band/%s/%s/fixed-%s" % (order, minimizer, "+".join(fixed) or "none"), sc_par_order_band, family="par-order-band/%s" % minimizer, params=dict(order=order, minimizer=minimizer, fixed=fixed)))
+    for order in ("cab", "bca"):
+        for fixed in (("a",), ("c",), ("b",), ()):
+            if q and (order, fixed) in (("bca", ("b",)), ("cab", ())):
+                continue
+            S.append(Scenario("par-order-asym/%s/fixed-%s" % (order, "+".join(fixed) or "none"), sc_par_order_asym, family="par-order-asym", params=dict(order=order, fixed=fixed)))
     for kinds in (["ey"], ["ey", "rho"], ["ey", "rel"], ["ey", "ex"], ["ey", "M"]):
         for cost in ("chi2_fast", "chi2"):
             for con in (False, True):
